@@ -355,7 +355,28 @@ def run(ctx):
                 nontrivial.add(json.dumps(case, sort_keys=True))
             if len(samples) < 3 and "realloc" in hits and case["stepped"]:
                 samples.append(dict(config=cdesc["config"], script=case_lines(case), impl=[x[:120] for x in il[:12]]))
-    ctx.cov.update(evaluations=evals, distinct_nontrivial=len(nontrivial), samples=samples,
+    # ---- id race phase (M4): many tasks make their FIRST qthread_id() call at the same moment on >= 4 workers; all are
+    # alive while their ids are compared (id_distinct / id_nonzero / id_stable on a really concurrent allocation; the
+    # middle round crosses the 32-bit wrap so the two re-draw fetch-and-adds interleave with other tasks' draws)
+    race = []
+    ntask, rounds = (768, 10) if quick else (1024, 40)
+    for (sheps, workers) in ([(8, 1), (2, 4)] if quick else [(8, 1), (2, 4), (4, 4), (16, 1)]):
+        rc, out, err = core.run_lines(exe, ["C 7", "D %d %d" % (ntask, rounds), "Q"], timeout=1500, env=core.qenv(sheps, workers, stack=32768))
+        line = next((l for l in out if l.startswith("D ")), None)
+        want = "D %d %d 0 0 0" % (ntask, rounds)
+        case = dict(config=dict(sheps=sheps, workers=workers, env={}), idrace=dict(tasks=ntask, rounds=rounds), impl=out[-3:], rc=rc)
+        evals += ntask * rounds
+        race.append(dict(sheps=sheps, workers=workers, result=line))
+        if line != want:
+            mismatches.append(("id race phase: impl `%s` model `%s`" % (line, want), case))
+            if line is None:
+                oracle_fail.append(("id race phase did not complete (rc=%s)" % rc, case))
+            else:
+                p = line.split()
+                oracle_fail.append(("of %s x %s concurrently allocated ids of live tasks: %s duplicates, %s reserved values (0 / UINT_MAX), %s changed on the "
+                                    "second call" % (p[1], p[2], p[3], p[4], p[5]), case))
+    hist["idrace_rounds"] = rounds * len(race)
+    ctx.cov.update(evaluations=evals, distinct_nontrivial=len(nontrivial), samples=samples, id_race=race,
                    rule="evaluations = task ops executed on the real runtime and compared with the model; non-trivial = distinct scripts that "
                         "leave the in-descriptor area (first blob / realloc) or draw an id at a 32-bit wrap position",
                    traces_validated_against_impl=evals, input_distribution=hist, configs=cfgs_seen,
